@@ -1574,7 +1574,9 @@ void Handler::handleIdentifiedArg( detail::TypedArgBase* hdl,
                                    const string& value)
 {
 
-   mConstraints.argumentIdentified( key);
+   // use the complete key of the argument, not the key as it was used on the
+   // command line (which may be only the short/long key or an abbreviation)
+   mConstraints.argumentIdentified( hdl->key());
    executeGlobalConstraints( hdl->key());
 
    if (mVerbose)
